@@ -259,6 +259,46 @@ func runC02(p *Prog, r *Report, tier string) {
 			}
 			_, isLen := lenOfValue(ia.Index)
 			first := false
+			// (c) len(buffer) - 4 (or - len(the 4 specifier bytes)) taken right after those bytes were appended, before anything else is
+			if sub, isSub := ia.Index.(*ssa.BinOp); isSub && sub.Op == token.SUB {
+				var specRoot ssa.Value
+				for _, s := range spec {
+					if s.Low == 0 && len(s.In.Call.Args) > 1 {
+						specRoot = sliceRoot(s.In.Call.Args[1])
+					}
+				}
+				okY := false
+				if k, isK := constInt(sub.Y); isK && k == 4 {
+					okY = true
+				}
+				if lv, isL := lenOfValue(sub.Y); isL && specRoot != nil && sliceRoot(lv) == specRoot {
+					okY = true
+				}
+				lenCall, _ := sub.X.(*ssa.Call)
+				lb, isLB := lenOfValue(sub.X)
+				if okY && isLB && lenCall != nil && isFieldLoad(lb, "pkg/entities.baseRecord.buffer") && specRoot != nil {
+					var appends []*ssa.Call
+					var firstAppend *ssa.Call
+					eachInstr(ai, func(x ssa.Instruction) {
+						if c, ok := x.(*ssa.Call); ok {
+							if b, ok := c.Call.Value.(*ssa.Builtin); ok && b.Name() == "append" && len(c.Call.Args) == 2 && isFieldLoad(c.Call.Args[0], "pkg/entities.baseRecord.buffer") {
+								appends = append(appends, c)
+								if sliceRoot(c.Call.Args[1]) == specRoot {
+									firstAppend = c
+								}
+							}
+						}
+					})
+					if firstAppend != nil && dominates(firstAppend, lenCall) {
+						first = true
+						for _, a2 := range appends {
+							if a2 != firstAppend && dominates(firstAppend, a2) && dominates(a2, lenCall) {
+								first = false
+							}
+						}
+					}
+				}
+			}
 			// (b) the first octet of the local specifier bytes (the slice the element id was put into at [0:2]), set before those
 			// bytes are appended to the record buffer
 			if z, isZ := constInt(ia.Index); isZ && z == 0 {
